@@ -409,7 +409,9 @@ func Run(r *fw.Run) {
 	// shorter one (another case, or the same name as a file)
 	{
 		mini := []string{"tool-x/a.go", "tool.d/a.go", "toolbox/a.go", "tool/b.go", "Tool/c.go", "tool", "TOOL/sub/d.go", "tool/sub/e.go",
-			"\u212a/ab", "\u212a/a", "k/ab", "d\u2126/a.go", "d\u03c9/b.go", "\u212a\u212a/x", "\u017f\u017f/y/z", "ss/y/w", "\u212b/q"}
+			"\u212a/ab", "\u212a/a", "k/ab", "d\u2126/a.go", "d\u03c9/b.go", "\u212a\u212a/x", "\u017f\u017f/y/z", "ss/y/w", "\u212b/q",
+			// a folding-shortening letter spelled the same in two paths, an ordinary case difference after it
+			"\u017fa/x.go", "\u017fA/y.go", "\u212ab/x", "\u212aB/y", "\u212a/b/z", "\u212a/B/w", "\u2126x/q/r", "\u2126X/q/s"}
 		for i := range mini {
 			for j := range mini {
 				if i == j {
@@ -422,6 +424,21 @@ func Run(r *fw.Run) {
 					}
 				}
 			}
+		}
+	}
+	// the module@version/ prefix text once more inside a name (vendored copies, test data): only the leading
+	// occurrence is the prefix
+	{
+		pre := prefixes[0]
+		for _, es := range [][]string{
+			{pre + "testdata/cache/" + pre + "m.go"}, {pre + pre + "go.mod"}, {pre + pre + "a", pre + "a"}, {pre + "a", pre + pre + "a"},
+			{pre + "go.mod", pre + pre + "go.mod"}, {pre + "x/" + pre + pre + "y"}, {pre + strings.TrimSuffix(pre, "/")}, {pre + "d/" + strings.TrimSuffix(pre, "/")},
+		} {
+			var e []ent
+			for _, n := range es {
+				e = append(e, mk(n))
+			}
+			jobs = append(jobs, job{goodMod, goodVers, e})
 		}
 	}
 	// siblings whose names are what an implementation might use for its own temporary or backup files
